@@ -63,6 +63,9 @@ _ctx = {}
 _SETUP_DONE = []
 
 
+RULE = RULE + ' Round 16: torch.set_float32_matmul_precision (highest/high/medium) is an environment knob of the run, drawn together with larger scans and detectors.'
+
+
 def setup():
     if _SETUP_DONE:
         return
